@@ -37,6 +37,9 @@ def gen(tier, seed):
                                                                                  "pre: 0 <= lv1 <= 5 and 0 <= u1 <= 10 and 0 <= lv2 <= 5 and u2 == (u1 * 3 + lv2 + 1) % 11 and 0 <= ex <= 2 and g == (u1 + lv1) % 2"],
         "declaring ANY of the 11 catalogue units systems at any one or two nesting levels (script, system, network, space, species, reaction; other levels inherit), with bare numbers re-scaled, explicit unit strings in that system, or explicit strings in a FOREIGN system (m, ms, mol), on a grid or a graph, yields the same physical script",
         "lv1: int, u1: int, lv2: int, u2: int, ex: int, g: int", viol="the physical content of a script depends on the units used to write it")
+    add("default_state", "c04-default-state", "default_state_invariance(lv1, u1, lv2, u2, g)", ["pre: 0 <= lv1 <= 5 and 0 <= u1 <= 10 and 0 <= lv2 <= 5 and u2 == (u1 * 7 + lv1 + 3) % 11 and 0 <= g <= 1"],
+        "the generated initial state (density x cell volume, no explicit state) is the same physical amount whichever one or two nesting levels declare a catalogue units system (incl. the space alone or the network alone), grid and graph",
+        "lv1: int, u1: int, lv2: int, u2: int, g: int", viol="the generated initial state depends on where the units are declared")
     add("keywords", "c04-unit-keywords", "keyword_invariance(lv1, u1, lv2, g)", ["pre: 0 <= lv1 <= 5 and 0 <= u1 <= 10 and 0 <= lv2 <= 5 and 0 <= g <= 1"],
         "the string forms of a units declaration: \"default\" is the package default system whatever encloses the object, \"inherit\" the enclosing one - one level declares a catalogue system, another says \"default\", the others say \"inherit\"; the physical content is that of the reference script",
         "lv1: int, u1: int, lv2: int, g: int", viol="a units keyword (\"default\" / \"inherit\") resolves to the wrong units system")
